@@ -200,23 +200,31 @@ package rapid
 // A callback may draw (drawn only grows), may touch the *T it was given through T's exported
 // methods (rely: see the contracts of those methods), and may end by panicking with any value.
 
+// relyUser: what user code holding a *T can do to it through T's exported methods (each proved of the method):
+// a failure is never cleared; cleanups are only appended; a context, once created, stays until cleanup; the lock
+// is not held when control returns.
+//@ define relyUser(t) = implies(old(t.failed) != "", t.failed != "") && len(t.cleanups) >= old(len(t.cleanups)) && (arr(t.cleanups) == old(arr(t.cleanups)) || fresh(arr(t.cleanups))) && implies(old(t.ctx) != nil, t.ctx == old(t.ctx) && t.cancelCtx == old(t.cancelCtx)) && (t.ctx == nil) == (t.cancelCtx == nil) && implies(t.cancelCtx != nil, ctxOf[t.cancelCtx] == t.ctx) && lockmode[addr(t.mu)] == 0 && t.cleaning.v == old(t.cleaning.v)
+
 //@ callback func(*T)
 //@   params fn, t
-//@   ensures drawn >= old(drawn)
-//@   panics any: drawn >= old(drawn)
-//@   modifies drawn, t.failed, t.cleanups, t.ctx, t.cancelCtx, t.draws
+//@   requires [C14] unlocked(t)
+//@   ensures drawn >= old(drawn) && relyUser(t)
+//@   panics any: drawn >= old(drawn) && relyUser(t)
+//@   modifies drawn, t.failed, t.cleanups, elems(t.cleanups), t.ctx, t.cancelCtx, t.draws
 
 //@ callback func(*T) V
 //@   params fn, t
-//@   ensures drawn >= old(drawn)
-//@   panics any: drawn >= old(drawn)
-//@   modifies drawn, t.failed, t.cleanups, t.ctx, t.cancelCtx, t.draws
+//@   requires [C14] unlocked(t)
+//@   ensures drawn >= old(drawn) && relyUser(t)
+//@   panics any: drawn >= old(drawn) && relyUser(t)
+//@   modifies drawn, t.failed, t.cleanups, elems(t.cleanups), t.ctx, t.cancelCtx, t.draws
 
 //@ callback func(*T) (V, bool)
 //@   params fn, t
-//@   ensures drawn >= old(drawn)
-//@   panics any: drawn >= old(drawn)
-//@   modifies drawn, t.failed, t.cleanups, t.ctx, t.cancelCtx, t.draws
+//@   requires [C14] unlocked(t)
+//@   ensures drawn >= old(drawn) && relyUser(t)
+//@   panics any: drawn >= old(drawn) && relyUser(t)
+//@   modifies drawn, t.failed, t.cleanups, elems(t.cleanups), t.ctx, t.cancelCtx, t.draws
 
 // pure user functions (keys, predicates, mappers): no access to a *T, may panic
 //@ callback func(E) K
@@ -514,12 +522,25 @@ package rapid
 //@   ensures [C14] unlocked(t)
 //@   ensures [C10] implies(old(t.ctx) != nil, cancelled[old(t.ctx)])
 //@   ensures [C02] implies(old(t.failed) != "", t.failed != "")
-//@   ensures [C10] sameOrNewArr(t)
-//@   panics any [C10,C11]: sameOrNewArr(t) && len(t.cleanups) == 0 && t.ctx == nil && t.cancelCtx == nil && !cleaning(t) && unlocked(t) && implies(old(t.ctx) != nil, cancelled[old(t.ctx)]) && implies(old(t.failed) != "", t.failed != "")
+//@   ensures [C10] sameOrNewArr(t) && drawn >= old(drawn)
+//@   panics any [C10,C11]: drawn >= old(drawn) && sameOrNewArr(t) && len(t.cleanups) == 0 && t.ctx == nil && t.cancelCtx == nil && !cleaning(t) && unlocked(t) && implies(old(t.ctx) != nil, cancelled[old(t.ctx)]) && implies(old(t.failed) != "", t.failed != "")
 //@   modifies t.failed, t.cleanups, elems(t.cleanups), t.ctx, t.cancelCtx, t.cleaning.v, t.draws, drawn, cancelled[t.ctx], lockmode[addr(t.mu)]
 //@   loop 0 invariant [C10,C14] unlocked(t) && t.ctx == nil && t.cancelCtx == nil && cleaning(t)
-//@   loop 0 invariant [C10] implies(old(t.ctx) != nil, cancelled[old(t.ctx)]) && implies(old(t.failed) != "", t.failed != "") && sameOrNewArr(t)
+//@   loop 0 invariant [C10] implies(old(t.ctx) != nil, cancelled[old(t.ctx)]) && implies(old(t.failed) != "", t.failed != "") && sameOrNewArr(t) && drawn >= old(drawn)
 
 //@ func newT
 //@   ensures [C10,C11] fresh(result) && clean(result) && unlocked(result)
 //@   ensures [C04,C10] result.s == s && result.tbLog == tbLog && result.tb != nil
+
+//@ func panicToError
+//@   ensures [C02] (result == nil) == (p == nil)
+//@   ensures [C02] implies(result != nil, fresh(result) && result.data == p)
+
+//@ func checkOnce
+//@   requires [C10,C11] clean(t) && unlocked(t) && prop != nil
+//@   ensures [C10,C11] len(t.cleanups) == 0 && t.ctx == nil && t.cancelCtx == nil && !cleaning(t) && unlocked(t)
+//@   ensures [C02,C11] implies(result == nil, t.failed == "")
+//@   ensures [C02,C11] implies(result != nil && isInvalidData(result.data), t.failed == "")
+//@   ensures [C02] implies(result != nil, fresh(result))
+//@   ensures drawn >= old(drawn)
+//@   modifies t.failed, t.cleanups, elems(t.cleanups), t.ctx, t.cancelCtx, t.cleaning.v, t.draws, drawn, lockmode[addr(t.mu)]
